@@ -1,3 +1,6 @@
+#[cfg(feature = "divan_verif")]
+use crate::verif::vstd as std;
+
 use std::{
     ptr,
     sync::atomic::{AtomicPtr, Ordering as AtomicOrdering},
